@@ -54,6 +54,25 @@ class Body:
         return _strip_generics(self.path)
 
     @property
+    def qual(self):
+        """`Type::method` (inherent or trait impl) / plain fn name; closures: qual of the enclosing fn"""
+        b = self
+        while b is not None and b.kind in ("closure", "promoted"):
+            b = self.crate.bodies.get(b.parent) if b.parent else None
+        if b is None:
+            return self.short
+        name = [x for x in _strip_generics(b.path).split("::") if x][-1]
+        st = b.impl_self
+        if st is not None:
+            t = st
+            while t.get("k") in ("ref", "ptr"):
+                t = t["to"]
+            if t.get("k") == "adt":
+                return "%s::%s" % (t["path"].split("::")[-1], name)
+            return "%s::%s" % (t.get("s", "?"), name)
+        return name
+
+    @property
     def file(self):
         return self.loc[0] if self.loc else None
 
